@@ -96,7 +96,7 @@ KEYS = {
     "logrec": ["id", "level", "parent", "marker"],
     "tupd": ["tid", "kind", "t", "res"], "tdelb": ["tid"], "tdel": ["tid", "kind", "res"],
     "tact": ["tid", "kind", "res"], "nexp": ["has", "x"],
-    "slablen": ["aid", "ready", "len"],
+    "slablen": ["aid", "ready", "len"], "slabdrop": ["aid"],
     "query": ["item", "aid"], "querye": ["item", "aid", "some"],
 }
 
